@@ -8,7 +8,7 @@ open CuqiVerif CuqiVerif.Proto CuqiVerif.C09
   `hg NAMES FLAGS SIDS NSTEPS INIT CALLS DRAWS`
      NAMES  `d,l,x`              par_names order
      FLAGS  `000,011,110`        per name: isNuts hasCache cacheInState
-     SIDS   `0,1,2`              identity of the sampler object assigned to each name (`-` = no key;
+     SIDS   `0,1,2`              identity of the sampler object assigned to each name (`-` = no key; `3!` = already initialized;
                                  one more entry = a key of the strategy that is not a parameter)
      NSTEPS `1,-,3`              num_sampling_steps (`-` = key absent)
      UINIT  `-;1;-`              `initial_point` given by the user (`-` = None)
@@ -82,10 +82,13 @@ def parseHCall (k : Nat) (s : String) : Option (Nat × Option (List Int)) :=
     if ns.length = k then pure (n, some ns) else none
   | _ => none
 
-def parseSid (s : String) : Option (Option Nat) :=
-  if s = "-" then some none else (fun k => some k) <$> s.toNat?
+/-- `3` / `-` (no key) / `3!` (the object is already initialized) -/
+def parseSid (s : String) : Option (Option Nat × Bool) :=
+  if s = "-" then some (none, false)
+  else if s.endsWith "!" then (fun k => (some k, true)) <$> (s.dropEnd 1).toString.toNat?
+  else (fun k => (some k, false)) <$> s.toNat?
 
-def runHG (names : List String) (flags : List (Bool × Bool × Bool)) (sids : List (Option Nat))
+def runHG (names : List String) (flags : List (Bool × Bool × Bool)) (sids : List (Option Nat × Bool))
     (nsteps : List (Option Int)) (uinit : List (Option Val)) (dinit : List Val) (calls : List (Nat × Option (List Int)))
     (draws : List (Draw Val)) : String :=
   let k := names.length
@@ -93,7 +96,8 @@ def runHG (names : List String) (flags : List (Bool × Bool × Bool)) (sids : Li
       || uinit.length != k || dinit.length != k then "bad-op"
   else if names.isEmpty || hasDup names then "bad-op"
   else
-    match validateStrategy names (lookup names (sids.take k) none) (sids.length == k + 1) with
+    match validateStrategy names (lookup names ((sids.take k).map (·.1)) none) (sids.length == k + 1)
+        (lookup names ((sids.take k).map (·.2)) false) with
     | some .keyError => "err|KeyError"
     | some .valueError => "err|ValueError"
     | none =>
